@@ -54,6 +54,31 @@ def _run_neg(c, name, n, seed=None, corr=("corr_neg_cache", "corr_neg_enc", "cor
     c.cases(name, out, imports, "ncase", corr=list(corr), spec=list(spec), premise=["premise_neg"])
 
 
+WIN_IMPORTS = ("From Coq Require Import String.\n"
+               "From Ergo Require Import Common.Base Common.Bytes Common.Codec Edf.Model Edf.Negotiate Edf.NegCases Edf.Window Edf.WinCases.\n"
+               "Local Open Scope N_scope.\n")
+
+
+def _run_win(c, name, n, seed=None, corr=("corr_window",), spec=("spec_window",)):
+    """the real handshake.Start / Accept over a pipe while the registries grow during the handshake"""
+    args = ["window", "-n", str(n)]
+    if c.replay and seed is None:
+        args = ["window", "-replay", c.replay]
+    env = {"VERIF_SEED": str(seed)} if seed is not None else None
+    out = c.harness("edf", args, env=env)
+    if not out:
+        return
+    c.cases(name, out, WIN_IMPORTS, "wcase", corr=list(corr), spec=list(spec), premise=["premise_window"])
+
+
+def _is_win_replay(path):
+    import json
+    try:
+        return "steps" in json.load(open(path)).get("case", {})
+    except Exception:
+        return False
+
+
 def _is_neg_replay(path):
     import json
     try:
@@ -67,24 +92,29 @@ def run(c):
     c.translate(['TieEdf'])  # T1: formulas / constants regenerated from the source, tie theorems re-checked
     # the checker definitions are not in the cone of the property file: (re)build them after the cone
     import vlib
-    ok, log = vlib.coq_make(["theories/Edf/Cases.vo", "theories/Edf/NegCases.vo"])
+    ok, log = vlib.coq_make(["theories/Edf/Cases.vo", "theories/Edf/NegCases.vo", "theories/Edf/WinCases.vo"])
     if not ok:
         c.broken.append({"kind": "proof", "what": "Coq build of theories/Edf/Cases.v / NegCases.v failed", "detail": log[-2500:]})
     n = 1300 if c.tier == "quick" else 20000   # + ~240 deterministic encodeType-flag cases of corpus/C11/flag-*.json
     nn = 250 if c.tier == "quick" else 6000
+    nw = 60 if c.tier == "quick" else 90   # bounded by the pool of 96 registrable types of the harness
     if c.replay:
-        if _is_neg_replay(c.replay):
+        if _is_win_replay(c.replay):
+            _run_win(c, "window", nw)
+        elif _is_neg_replay(c.replay):
             _run_neg(c, "negotiated", nn)
         else:
             _run(c, "roundtrip", n)
     else:
         _run(c, "roundtrip", n)
         _run_neg(c, "negotiated", nn)
+        _run_win(c, "window", nw)
     if c.broken and not c.violations and not c.replay:
         # something no longer checks: spend the extra search budget on the property monitors only
         keep = list(c.broken)
         _run(c, "roundtrip-search", n * 10 if c.tier == "quick" else n * 3, seed=c.seed + 7919, corr=())
         _run_neg(c, "negotiated-search", nn * 10 if c.tier == "quick" else nn * 3, seed=c.seed + 7919, corr=())
+        _run_win(c, "window-search", 90, seed=c.seed + 7919, corr=())
         c.broken = keep + [b for b in c.broken if b not in keep]
     c.cov["rule"] = ("distinct = different Coq case term (type, value, options, bytes); non-trivial = the encoder model "
                      "accepts the value, the guard of C11_roundtrip_partial holds and Unmarshal inverts Marshal on the marshaler "
@@ -98,6 +128,8 @@ def run(c):
         "theorems; proved for the harness's HMar / HBin, evaluated on every case by premise_ok); options.Cache memoisation is outside the model",
         "negotiated family: the two nodes live in one process (one edf type registry; error and atom tables are per node), each "
         "MessageIntroduce crosses the handshake's real framing over net.Pipe, caches come from handshake.VerifCaches (build tag verif)",
+        "window family: both parties live in one process and share edf's registries; registrations are placed inside the Write of a "
+        "scripted handshake frame (after the message was built, before the peer has it); the announced tables are read from the wire",
         "time.Time.MarshalBinary / UnmarshalBinary of the Go standard library round-trip (only the length/version check is modelled)",
         "encodeType flag protocol (Edf/Flag.v): the stateEncode chain state, state.child, ... is modelled as the list of its encodeType "
         "flags; options are constant along the chain; a pooled and a freshly allocated child are the same (flag false, no child); the "
